@@ -265,7 +265,7 @@ void Executor::check_verdict_real(Obj& o, int st, bool complete, const std::vect
     if (!s.isPrimalFeasible() || !s.isDualFeasible()) count("optimal_but_feasible_flags_false");
   } else if (st == sut::ST_INFEASIBLE) {
     count("verdict_checked_infeasible");
-    if (ref.status == model::REF_OPTIMAL && ref.feas_fragile) { count("fragile_skipped"); return; }
+    if ((ref.status == model::REF_OPTIMAL || ref.status == model::REF_UNBOUNDED) && ref.feas_fragile) { count("fragile_skipped"); return; }
     if (ref.status != model::REF_INFEASIBLE) { both(p2, "infeasible_but_feasible", std::string("INFEASIBLE returned, exact reference says ") + model::ref_name(ref.status)); return; }
     if (s.hasDualFarkas()) {
       std::vector<double> y; std::string why;
